@@ -17,7 +17,7 @@ class EvalUnknown(Exception):
     pass
 
 _BIN = {'+': operator.add, '-': operator.sub, '*': operator.mul, '//': operator.floordiv, '%': operator.mod, '&': operator.and_, '|': operator.or_,
-        '<<': operator.lshift, '>>': operator.rshift, '/': operator.truediv}
+        '<<': operator.lshift, '>>': operator.rshift, '/': operator.truediv, '^': operator.xor, '**': operator.pow}
 _CMP = {'==': operator.eq, '!=': operator.ne, '<': operator.lt, '<=': operator.le, '>': operator.gt, '>=': operator.ge}
 
 class Model:
